@@ -95,7 +95,7 @@ func confSetup() {
 		}
 		// fixed name: a replayed case refers to the same file (all writers write the same bytes)
 		propFile = filepath.Join(os.TempDir(), "c13-verif.properties")
-		_ = os.WriteFile(propFile, []byte("key=1\nname=/a\nempty=\n=x\nnoeq\n"), 0o644)
+		_ = os.WriteFile(propFile, []byte("key=1\nname=/a\nempty=\nnoeq\n"), 0o644)
 		os.Setenv("C13_SET", "1")
 		os.Setenv("C13_STR", "/a")
 	})
